@@ -12,11 +12,11 @@ func (o *Ob) rejectsAfter(fn *ssa.Function, lit LitM, key, what string, acceptin
 	e := o.E
 	n := 0
 	idx := fn.Signature.Results().Len() - 1
-	for _, b := range fn.Blocks {
-		for si := range b.Succs {
-			if li, ok := e.EdgeLit(b, si); ok && lit.F(li) {
+	{
+		for _, ec := range e.EdgesAsserting(fn, lit) {
+			{
 				n++
-				r := (&Walk{Fn: fn}).FromEdge(b, si)
+				r := (&Walk{Fn: fn}).FromEdgeCtx(ec)
 				for _, acc := range accepting {
 					o.Check(!r.Has(acc), key, what+": validation goes on to the accepting exit", acc)
 				}
@@ -91,7 +91,8 @@ func init() {
 		}
 		if o.Check(len(lookups) == 2, "interval-lookups", "both interval lists must be checked for duplicate names", nil) {
 			o.Check(lookups[0].X == lookups[1].X, "interval-sets-split", "mute_time_intervals and time_intervals are checked against separate name sets: a name defined in both lists is accepted and one definition silently shadows the other", lookups[1])
-			o.Check(ct.Common().Args[1] == lookups[0].X, "interval-set-arg", "references must be checked against the same name set", ct)
+			sets := e.ValsAt((&Walk{Fn: fn}).FromEntry(), ct, ct.Common().Args[1])
+			o.Check(len(sets) == 1 && sets[0] == lookups[0].X, "interval-set-arg", "references must be checked against the same name set", ct)
 			// every name is added to the set
 			for _, lk := range lookups {
 				l := e.LoopOf(lk)
@@ -242,10 +243,23 @@ func init() {
 		o.Check(n >= 5, "effects", "expected the stop/apply/publish effects of reload, found "+itoa(n), nil)
 		// coordinator
 		rl := o.Fn("(*am/config.Coordinator).Reload")
-		lf := o.One(e.Calls(rl, "(*am/config.Coordinator).loadFromFile"), "coord-load", "the coordinator must load the file", rl)
+		lf := o.One(e.Calls(rl, "am/config.LoadFile"), "coord-load", "the coordinator must load the file", rl)
+		o.Check(e.Arg(lf, 0) == "recv.configFilePath", "coord-load-arg", "the coordinator must load its configured file", lf)
 		ns := o.One(e.Calls(rl, "(*am/config.Coordinator).notifySubscribers"), "coord-notify", "the coordinator must notify subscribers", rl)
 		o.Site(ns, "notifySubscribers")
-		o.Guarded(ns, "coord-order", "applying a configuration", L("("+e.X(rl, lf.(*ssa.Call))+" == nil)", true))
+		o.Guarded(ns, "coord-order", "applying a configuration", L("("+e.X(rl, lf.(*ssa.Call))+"#1 == nil)", true))
+		// what subscribers are notified of is what was loaded
+		cfgSt := e.StoresTo(rl, "recv.config")
+		if o.Check(len(cfgSt) >= 1, "coord-store", "the loaded configuration is not stored before subscribers are notified", ns) {
+			for _, st := range cfgSt {
+				o.Check(e.X(rl, st.Val) == e.X(rl, lf.(*ssa.Call))+"#0", "coord-store-value", "the stored configuration must be the one just loaded", st)
+				o.Check(InstrDominates(st, ns) || !(&Walk{Fn: rl}).After(st).Has(ns) == false, "coord-store-order", "", st)
+			}
+			o.Precedes(ns, "coord-store-first", "subscribers are notified before the loaded configuration is stored", func(in ssa.Instruction) bool {
+				st, ok := in.(*ssa.Store)
+				return ok && e.X(rl, st.Addr) == "recv.config"
+			})
+		}
 		o.rejectsAfter(rl, L("("+e.X(rl, ns.(*ssa.Call))+" == nil)", false), "coord-error", "a subscriber that rejects the configuration")
 		o.MinSites(6)
 	})
